@@ -249,6 +249,8 @@ def run_verify(fs, top='Manifest', path='', last_mtime=None, fail_handler=None,
             return 'loop'
         except FuelExhausted:
             return 'nonterminating'
+        except OSError as e:
+            return 'oserror:%s' % e.errno
 
 
 def expected_outcomes(v):
@@ -380,7 +382,7 @@ def run_update(fs, top='Manifest', path='', hashes=('MD5',), sort=False, force=F
         except FuelExhausted:
             return 'nonterminating'
         except OSError as e:
-            return 'oserror:' + type(e).__name__
+            return 'oserror:%s' % e.errno
         except (AssertionError, AttributeError, KeyError, IndexError, TypeError,
                 ValueError, NotImplementedError, UnboundLocalError) as e:
             # an internal error escaping the library is C18's subject, not a completed
